@@ -263,6 +263,41 @@ func (p *c01) Init(tier string, seed int64) {
 			return pre + strings.Repeat(a+b, d)
 		})
 	}
+	// (vii) pumped units: a short sequence of the tokens strings and interpolations are made of, repeated 40 times
+	// behind an opening quote. A scan that retries after a failure instead of giving up takes twice as long for every
+	// repetition of the right unit - 40 repetitions tell linear from exponential, whatever the unit
+	{
+		alpha := []string{"#{", "\"", "}", "{", "#", "a", "'", "\\", "}}", " ", "~"}
+		pres := []string{"{{ \"", "{% set x = \"", "<p>{{ \"a", "{{ '", "{% if \"#{", "{{ f(\""}
+		posts := []string{"", "\n</p><p>the rest of the page</p>\n", "\" }}", "' }}", "}\" %}x{% endif %}"}
+		nExh := 0
+		for l := 1; l <= 3; l++ {
+			nExh += gen.Pow(len(alpha), l)
+		}
+		nRnd := p.pick(30000, 600000)
+		p.add("pumped-unit", (nExh+nRnd)*2, func(i int) string {
+			reps := []int{40, 41}[i%2]
+			i /= 2
+			var unit string
+			if i < nExh {
+				l, k := 1, i
+				for k >= gen.Pow(len(alpha), l) {
+					k -= gen.Pow(len(alpha), l)
+					l++
+				}
+				for ; l > 0; l-- {
+					unit += alpha[k%len(alpha)]
+					k /= len(alpha)
+				}
+				return pres[i%len(pres)] + strings.Repeat(unit, reps) + posts[i%len(posts)]
+			}
+			r := gen.Rng(p.seed, "c01pump", i)
+			for n := 4 + r.Intn(9); n > 0; n-- {
+				unit += alpha[r.Intn(7)] // (the first seven: the ones that open and close something)
+			}
+			return pres[r.Intn(len(pres))] + strings.Repeat(unit, reps) + posts[r.Intn(len(posts))]
+		})
+	}
 	// (vi'') flat chains: one cheap element repeated many times - stacked prefix operators, operator chains of either
 	// associativity, accessor and filter chains, elseif chains, runs of prints / comments / tags. Whatever the parser
 	// keeps per pending level (re-reads of the closing token, a look-ahead buffer, a counter) is exercised at depths
@@ -285,6 +320,13 @@ func (p *c01) Init(tier string, seed int64) {
 		p.add("chain", n, func(i int) string {
 			c := chains[i/len(depths)]
 			return c.pre + strings.Repeat(c.rep, depths[i%len(depths)]) + c.post
+		})
+		// ... and every length from 1 to 130 (whatever is done in runs of 8, 16, 32 or 64 elements has a remainder of
+		// every size), with and without one more piece of text at the end
+		small := append(append([]ch{}, chains...), ch{"{{ \"", "#{a}", "z\" }}"}, ch{"{{ \"z", "#{a}", "\" }}"}, ch{"{{ \"", "#{a}b", "\" }}"}, ch{"{{ \"", "#{a}#{'b'}", "c\" }}"}, ch{"{% set s = \"", "#{a}", " z\" %}"})
+		p.add("chain", len(small)*130, func(i int) string {
+			c := small[i/130]
+			return c.pre + strings.Repeat(c.rep, 1+i%130) + c.post
 		})
 	}
 	// (vi) nesting ladders
